@@ -44,6 +44,7 @@ type sn struct {
 	Default   string `json:"default,omitempty"`
 	Mandatory bool   `json:"mandatory,omitempty"`
 	Typedef   bool   `json:"typedef,omitempty"` // the type (and default) come from a typedef
+	State     bool   `json:"state,omitempty"`   // config false (the whole schema is compiled, state included)
 }
 
 func (n *sn) yang() string {
@@ -78,6 +79,9 @@ func (n *sn) yang() string {
 		} else {
 			b.WriteString(" presence \"p\";")
 		}
+	}
+	if n.State {
+		b.WriteString(" config false;")
 	}
 	if n.Key != "" {
 		fmt.Fprintf(&b, " key %q;", n.Key)
@@ -202,7 +206,7 @@ func schemas() [][]*sn {
 		{{Kind: "container", Name: "c", Kids: []*sn{{Kind: "choice", Name: "ch", Kids: []*sn{{Kind: "case", Name: "a", Kids: []*sn{lf("a1", "string"), {Kind: "choice", Name: "inner", Kids: []*sn{{Kind: "case", Name: "i1", Kids: []*sn{lf("deep", "uint8")}}, lf("short", "boolean")}}}}, lf("b1", "enum")}}}}},
 		{{Kind: "leaf-list", Name: "ll", Type: "uint8"}, {Kind: "leaf", Name: "top", Type: "enum"}, {Kind: "container", Name: "c", Kids: []*sn{{Kind: "leaf-list", Name: "names", Type: "string"}}}},
 		{{Kind: "list", Name: "outer", Key: "name", Kids: []*sn{lf("name", "string"), {Kind: "list", Name: "inner", Key: "id", Kids: []*sn{lf("id", "enum"), lf("val", "uint8")}}, {Kind: "container", Name: "pc", Presence: true}}}},
-		{{Kind: "container", Name: "a", Kids: []*sn{{Kind: "container", Name: "b", Kids: []*sn{{Kind: "container", Name: "c", Presence: true, Kids: []*sn{lf("e", "empty")}}, lf("red", "string")}}}}},
+		{{Kind: "container", Name: "a", Kids: []*sn{{Kind: "container", Name: "b", Kids: []*sn{{Kind: "container", Name: "c", Presence: true, State: true, Kids: []*sn{lf("e", "empty")}}, lf("red", "string")}}}}},
 		// defaults (own and from a typedef) whose values are tokens of the alphabet, a mandatory leaf
 		{{Kind: "container", Name: "dc", Kids: []*sn{{Kind: "leaf", Name: "d7", Type: "uint8", Default: "7"}, {Kind: "leaf", Name: "dg", Type: "enum", Default: "green"}, {Kind: "leaf", Name: "tdl", Type: "boolean", Default: "true", Typedef: true}, {Kind: "leaf", Name: "m", Type: "uint8", Mandatory: true}}},
 			{Kind: "list", Name: "dl", Key: "k", Kids: []*sn{lf("k", "string"), {Kind: "leaf", Name: "dx", Type: "string", Default: "x"}}}},
